@@ -27,31 +27,31 @@ Print Assumptions registry_init.
 
 (* every operation, from every state satisfying the invariant: no loop runs out of fuel, the
    C code never computes `% 0`, the invariant is kept, mem answers by the registry *)
-Theorem registry_step : forall hashf owns rf nf g o,
+Theorem registry_step : forall hashf d rf nf g o, dtors_ok d ->
   Inv hashf g -> Quiet g -> admissible g o ->
-  exists g' out, Gstep hashf owns rf nf g o = (g', out) /\ out <> OFuel /\ out <> OCrash /\
+  exists g' out, Gstep hashf d rf nf g o = (g', out) /\ out <> OFuel /\ out <> OCrash /\
     Inv hashf g' /\ Quiet g' /\
     (forall p, o = OMem p -> out = OBool true <-> exists s, Reg g p s).
 Proof. exact RegistryProofs.registry_step_thm. Qed.
 Print Assumptions registry_step.
 
-Theorem registry_history : forall hashf owns rf nf ops,
-  Gadm hashf owns rf nf ops gc_init ->
-  Inv hashf (Grun hashf owns rf nf ops gc_init) /\ Quiet (Grun hashf owns rf nf ops gc_init).
+Theorem registry_history : forall hashf d rf nf ops, dtors_ok d ->
+  Gadm hashf d rf nf ops gc_init ->
+  Inv hashf (Grun hashf d rf nf ops gc_init) /\ Quiet (Grun hashf d rf nf ops gc_init).
 Proof. exact RegistryProofs.registry_history_thm. Qed.
 Print Assumptions registry_history.
 
 (* ... hence at every intermediate step of a history *)
-Theorem registry_every_step : forall hashf owns rf nf done rest,
-  Gadm hashf owns rf nf (done ++ rest) gc_init ->
-  Inv hashf (Grun hashf owns rf nf done gc_init) /\ Quiet (Grun hashf owns rf nf done gc_init).
+Theorem registry_every_step : forall hashf d rf nf done rest, dtors_ok d ->
+  Gadm hashf d rf nf (done ++ rest) gc_init ->
+  Inv hashf (Grun hashf d rf nf done gc_init) /\ Quiet (Grun hashf d rf nf done gc_init).
 Proof. exact RegistryProofs.registry_every_step_thm. Qed.
 Print Assumptions registry_every_step.
 
 (* C17 in one statement *)
-Theorem registry_is_ledger : forall hashf owns rf nf ops,
-  Gadm hashf owns rf nf ops gc_init ->
-  let g := Grun hashf owns rf nf ops gc_init in
+Theorem registry_is_ledger : forall hashf d rf nf ops, dtors_ok d ->
+  Gadm hashf d rf nf ops gc_init ->
+  let g := Grun hashf d rf nf ops gc_init in
   (forall q s, Reg g q s <-> led (evs g) q s) /\
   NoDup (map ptr (entries gentry (slots g))) /\
   nitems g = length (entries gentry (slots g)) /\
@@ -75,18 +75,30 @@ Theorem sweep_loop_exact : forall hashf (l : list gslot) nit pl ev,
 Proof. exact RegistryProofs.sweep_loop_exact_thm. Qed.
 Print Assumptions sweep_loop_exact.
 
-Theorem sweep_total : forall hashf owns rf nf g, InvM hashf g -> Quiet g ->
-  exists g', Gsweep hashf owns rf nf g = Some g' /\ Inv hashf g' /\ Quiet g'.
+Theorem sweep_total : forall hashf d rf nf g, dtors_ok d -> InvM hashf g -> Quiet g ->
+  exists g', Gsweep hashf d rf nf g = Some g' /\ Inv hashf g' /\ Quiet g'.
 Proof. exact RegistryProofs.sweep_total_thm. Qed.
 Print Assumptions sweep_total.
 
-(* removals while a sweep is in progress / from inside another removal *)
-Theorem removal_during_sweep : forall hashf owns rf g p f,
-  Inv hashf g -> measure g < f ->
-  exists g', Grem hashf owns rf f g p = Some g' /\ Inv hashf g' /\ measure g' <= measure g /\
+(* removals while a sweep is in progress / from inside another removal: the model's nesting
+   fuel `depth` suffices, whatever the destructors delete and allocate on the way *)
+Theorem removal_during_sweep : forall hashf d rf g p f, dtors_ok d ->
+  Inv hashf g -> depth g <= f ->
+  exists g', Grem hashf d rf f g p = Some g' /\ Inv hashf g' /\
              length (pending g') = length (pending g).
 Proof. exact RegistryProofs.removal_during_sweep_thm. Qed.
 Print Assumptions removal_during_sweep.
+
+(* allocations while a sweep is in progress (GC_Set called from a destructor): registered with
+   the root flag, counted, invariant (bounds, ledger, robin-hood order through Resize_More) kept *)
+Theorem allocation_during_sweep : forall hashf d g p r, dtors_ok d ->
+  Inv hashf g -> ~ In p (d_olist d) ->
+  exists g', Gspawn hashf g (p, r) = Some g' /\ Inv hashf g' /\
+             length (pending g') = length (pending g) /\
+             (running g = true -> is_reg (slots g) p = false -> is_pending p (pending g) = false ->
+              Reg g' p r /\ nitems g' = S (nitems g) /\ hd EvViol (evs g') <> EvViol \/ pending g = []).
+Proof. exact RegistryProofs.allocation_during_sweep_thm. Qed.
+Print Assumptions allocation_during_sweep.
 
 (* GC_Mark_Item on a registered aligned address: the [minptr, maxptr] pre-filter lets it
    through, the probe loop reaches it, it ends up marked (interface to C01) *)
@@ -102,17 +114,21 @@ Theorem led_list_spec : forall l q s, In (q, s) (led_list l) <-> led l q s.
 Proof. exact RegistryProofs.led_list_spec_thm. Qed.
 Print Assumptions led_list_spec.
 
+Example destructors_ok : dtors_ok ex_d.
+Proof. exact ex_d_ok. Qed.
+
 (* ---- non-vacuity: an admissible history with collisions, a sweep whose destructors delete a
    pending object and a marked survivor, address re-use, a stop window; both variants of the
    pending-list handling *)
 Example history_is_admissible :
-  Gadm ex_hash ex_owns false false ex_ops gc_init /\ Gadm ex_hash ex_owns true true ex_ops gc_init.
+  Gadm ex_hash ex_d false false ex_ops gc_init /\ Gadm ex_hash ex_d true true ex_ops gc_init.
 Proof. split; apply adm_runb_ok; vm_compute; reflexivity. Qed.
 
 Example history_is_not_trivial :
-  let g := Grun ex_hash ex_owns false false ex_ops gc_init in
-  nitems g = 1 /\ In (EvReclaim 16) (evs g) /\ In (EvRem 24) (evs g) /\ ~ In (EvFin 16) (evs g) /\
-  In (EvFin 16) (evs (Grun ex_hash ex_owns true true ex_ops gc_init)).
+  let g := Grun ex_hash ex_d false false ex_ops gc_init in
+  nitems g = 2 /\ In (EvReclaim 16) (evs g) /\ In (EvRem 24) (evs g) /\ In (EvSpawn 4104 true) (evs g) /\
+  maxptr g = 4104%N /\ ~ In (EvFin 16) (evs g) /\
+  In (EvFin 16) (evs (Grun ex_hash ex_d true true ex_ops gc_init)).
 Proof.
   vm_compute. repeat split; try tauto.
   intros H; repeat (destruct H as [H|H]; [discriminate|]); exact H.
@@ -120,18 +136,18 @@ Qed.
 
 (* the hypothesis InvM of sweep_total (invariant with mark bits set) is satisfiable by a state
    with five colliding entries, one of them marked *)
-Example five_allocations : nitems (Grun ex_hash ex_owns false false (firstn 5 ex_ops) gc_init) = 5.
+Example five_allocations : nitems (Grun ex_hash ex_d false false (firstn 5 ex_ops) gc_init) = 5.
 Proof. vm_compute. reflexivity. Qed.
 
-Example first_five_admissible : Gadm ex_hash ex_owns false false (firstn 5 ex_ops) gc_init.
+Example first_five_admissible : Gadm ex_hash ex_d false false (firstn 5 ex_ops) gc_init.
 Proof. apply adm_runb_ok; vm_compute; reflexivity. Qed.
 
 Example marked_state_satisfies_InvM :
   exists g, InvM ex_hash g /\ Quiet g /\ nitems g = 5 /\ exists e, Holds gentry (slots g) e /\ marked e = true.
 Proof.
-  destruct (registry_history ex_hash ex_owns false false (firstn 5 ex_ops) first_five_admissible) as [[H _] Hq].
+  destruct (registry_history ex_hash ex_d false false (firstn 5 ex_ops) ex_d_ok first_five_admissible) as [[H _] Hq].
   pose proof five_allocations as Hn.
-  remember (Grun ex_hash ex_owns false false (firstn 5 ex_ops) gc_init) as g eqn:Hg. clear Hg.
+  remember (Grun ex_hash ex_d false false (firstn 5 ex_ops) gc_init) as g eqn:Hg. clear Hg.
   destruct (Inv_nodup ex_hash g H) as [_ Hc]. rewrite Hn in Hc.
   destruct (entries gentry (slots g)) as [|e es] eqn:He; [discriminate|].
   destruct (mark_all_InvM ex_hash g H Hq) as [H1 [H2 [H3 H4]]].
@@ -142,20 +158,20 @@ Qed.
 (* the hypotheses of removal_during_sweep are satisfiable with a non-empty pending list: the
    invariant does not ask for `Quiet` *)
 Example pending_state_satisfies_Inv :
-  exists g, Inv ex_hash g /\ pending g = [Some 4096%N] /\ nitems g = 5 /\ measure g = 6.
+  exists g, Inv ex_hash g /\ pending g = [Some 4096%N] /\ nitems g = 5 /\ depth g = 8.
 Proof.
-  destruct (registry_history ex_hash ex_owns false false (firstn 5 ex_ops) first_five_admissible) as [Hi Hq].
+  destruct (registry_history ex_hash ex_d false false (firstn 5 ex_ops) ex_d_ok first_five_admissible) as [Hi Hq].
   pose proof five_allocations as Hn.
-  assert (Hab : is_reg (slots (Grun ex_hash ex_owns false false (firstn 5 ex_ops) gc_init)) 4096 = false)
+  assert (Hab : is_reg (slots (Grun ex_hash ex_d false false (firstn 5 ex_ops) gc_init)) 4096 = false)
     by (vm_compute; reflexivity).
-  remember (Grun ex_hash ex_owns false false (firstn 5 ex_ops) gc_init) as g eqn:Hg. clear Hg.
+  remember (Grun ex_hash ex_d false false (firstn 5 ex_ops) gc_init) as g eqn:Hg. clear Hg.
   destruct (add_pending_Inv ex_hash g 4096%N Hi Hab) as [H1 [H2 [H3 H4]]].
   eexists. split; [exact H1|]. split; [exact H2|]. split; [rewrite H3; exact Hn|rewrite H4, Hn; reflexivity].
 Qed.
 
 (* the allocator contract is needed: the same address registered twice breaks the count *)
 Theorem registry_double_registration_refuted :
-  exists ops, let g := Grun ex_hash ex_owns false false ops gc_init in
+  exists ops, let g := Grun ex_hash ex_d false false ops gc_init in
               nitems g <> length (entries gentry (slots g)).
 Proof. exists bad_ops. vm_compute. discriminate. Qed.
 Print Assumptions registry_double_registration_refuted.
